@@ -383,6 +383,12 @@ where
             .store()
             .subslice_utf8_offset(self.text())
             .expect("subslice should succeed");
+        if abscursor > self.textlen() {
+            return Err(StamError::CursorOutOfBounds(
+                Cursor::BeginAligned(abscursor),
+                "utf8byte(): cursor is beyond the text selection",
+            ));
+        }
         Ok(self.store().utf8byte(self.absolute_cursor(abscursor))? - beginbyte)
     }
 
@@ -394,10 +400,13 @@ where
             .store()
             .subslice_utf8_offset(self.text())
             .expect("subslice should succeed");
-        Ok(self
-            .store()
-            .utf8byte_to_charpos(self.absolute_cursor(beginbyte + bytecursor))?
-            - self.begin())
+        if bytecursor > self.text().len() {
+            return Err(StamError::CursorOutOfBounds(
+                Cursor::BeginAligned(bytecursor),
+                "utf8byte_to_charpos(): byte cursor is beyond the text selection",
+            ));
+        }
+        Ok(self.store().utf8byte_to_charpos(beginbyte + bytecursor)? - self.begin())
     }
 
     fn absolute_cursor(&self, cursor: usize) -> usize {
@@ -575,6 +584,12 @@ where
             .store()
             .subslice_utf8_offset(self.text())
             .expect("subslice should succeed");
+        if abscursor > self.textlen() {
+            return Err(StamError::CursorOutOfBounds(
+                Cursor::BeginAligned(abscursor),
+                "utf8byte(): cursor is beyond the text selection",
+            ));
+        }
         Ok(self.store().utf8byte(self.absolute_cursor(abscursor))? - beginbyte)
     }
 
@@ -586,10 +601,13 @@ where
             .store()
             .subslice_utf8_offset(self.text())
             .expect("subslice should succeed");
-        Ok(self
-            .store()
-            .utf8byte_to_charpos(self.absolute_cursor(beginbyte + bytecursor))?
-            - self.begin())
+        if bytecursor > self.text().len() {
+            return Err(StamError::CursorOutOfBounds(
+                Cursor::BeginAligned(bytecursor),
+                "utf8byte_to_charpos(): byte cursor is beyond the text selection",
+            ));
+        }
+        Ok(self.store().utf8byte_to_charpos(beginbyte + bytecursor)? - self.begin())
     }
 
     fn absolute_cursor(&self, cursor: usize) -> usize {
